@@ -649,6 +649,7 @@ func init() {
 		tqCampaign(c, "C15")
 		if c.Replay == "" {
 			c06Real(c, NewRng(c.Seed^0xC15A), "C15")
+			c15Expiry(c, NewRng(c.Seed^0xC15E))
 		}
 	}
 }
